@@ -17,6 +17,7 @@ func ruleC04(prog *Program, rep *Report) {
 	rep.Explain("C04 decides structural clauses of 'writers emit valid JSON': (1) string escaping is total and exact per byte against RFC 8259 section 7 (G-json); (2) the in-memory and the streaming entry of each Writer configure the encoder identically (W-parity: their statement lists differ only in statements about the io.Writer, the flush threshold and the result); (3) every object emitter selected under the Sort option sorts the keys before the emitting loop and never emits from a range over the map (W-sort); (4) every slice of the constant indentation strings with a computed bound is preceded by the clamp to the string's length (W-clamp: depth beyond the indentation string). Not covered: that the text parses back to an equal tree, number formatting, retraction safety under mid-stream flush, pretty layout arithmetic.")
 	ruleJSONStringWriter(prog, rep)
 	ruleWriterParity(prog, rep)
+	ruleEntryPairWriters(prog, rep)
 	ruleSortedEmit(prog, rep)
 	ruleClamp(prog, rep)
 	ruleSeparator(prog, rep)
@@ -527,5 +528,64 @@ func rulePadBound(prog *Program, rep *Report) {
 	rep.Eval(len(sites))
 	if len(sites) < 5 {
 		rep.Errorf("W-padbound found %d computed pad slices (floor 5): anchors did not resolve", len(sites))
+	}
+}
+
+// ruleEntryPairWriters: W-pair. The package-level in-memory function (oj.JSON, sen.String) and its streaming
+// twin (oj.Write, sen.Write) must obtain their Writer the same way: the same helper with the same arguments and
+// the same pool. A difference (one of them asking the helper for a strict writer) makes the streamed text
+// differ from the in-memory text for the same data and options.
+func ruleEntryPairWriters(prog *Program, rep *Report) {
+	rep.Rules = append(rep.Rules, "W-pair: the package-level in-memory function and its streaming twin (oj.JSON / oj.Write, sen.String / sen.Write) obtain their Writer by textually equal calls (helper and arguments, pool): streaming emits the text of the in-memory call")
+	pairs := 0
+	for _, g := range []struct{ rel, mem, stream string }{{"oj", "JSON", "Write"}, {"sen", "String", "Write"}} {
+		pk := prog.Pkg(g.rel)
+		if pk == nil {
+			rep.Errorf("W-pair: package %s missing", g.rel)
+			continue
+		}
+		info := pk.TypesInfo
+		sources := func(name string) ([]string, *ast.FuncDecl) {
+			fd, _ := prog.FuncDecl(Func(pk, name))
+			if fd == nil {
+				return nil, nil
+			}
+			var out []string
+			ast.Inspect(fd.Body, func(n ast.Node) bool {
+				as, ok := n.(*ast.AssignStmt)
+				if !ok || len(as.Rhs) != 1 || len(as.Lhs) < 1 {
+					return true
+				}
+				t := info.TypeOf(as.Lhs[0])
+				if t == nil {
+					return true
+				}
+				if p, ok := t.(*types.Pointer); !ok {
+					return true
+				} else if n, ok := p.Elem().(*types.Named); !ok || n.Obj().Name() != "Writer" || n.Obj().Pkg() != pk.Types {
+					return true
+				}
+				out = append(out, wsRe.ReplaceAllString(printNode(prog.Fset, as.Rhs[0]), " "))
+				return true
+			})
+			sort.Strings(out)
+			return out, fd
+		}
+		a, fa := sources(g.mem)
+		b, fb := sources(g.stream)
+		key := fmt.Sprintf("%s.%s=%s", g.rel, g.mem, g.stream)
+		if fa == nil || fb == nil || len(a) == 0 {
+			rep.Errorf("W-pair: %s: functions or writer sources not found", key)
+			continue
+		}
+		pairs++
+		if strings.Join(a, " ; ") == strings.Join(b, " ; ") {
+			rep.Discharge("W-pair", key, prog.Pos(fb.Pos()), "writer obtained by: "+strings.Join(a, " ; "))
+		} else {
+			rep.Violate(Finding{Rule: "W-pair", Key: key, Pos: prog.Pos(fb.Pos()), Msg: fmt.Sprintf("%s.%s obtains its Writer by [%s] but %s.%s by [%s]: the streamed text is not the text of the in-memory call", g.rel, g.mem, strings.Join(a, " ; "), g.rel, g.stream, strings.Join(b, " ; "))})
+		}
+	}
+	if pairs < 2 {
+		rep.Errorf("W-pair compared %d pairs (floor 2)", pairs)
 	}
 }
